@@ -15,6 +15,29 @@ TRUSTED = ['clang 14 AST + constant evaluation', 'bsfacts', 'bsv/dtab.py interpr
 
 def run(prog, rep):
     M.check_reader_twins(prog, rep)
+    from rules import c06
+    from rules import msgpack_writer_tables as W
+    rep.rule('R10.2', 'memory and stream MsgPack writers have equal emission tables for every overload and every value/length cell', floor=240)
+    T = W.writer_tables(prog)
+    for mkey in sorted(T['string'], key=str):
+        fs, fam, ps = T['string'][mkey]
+        ft, _, pt_ = T['stream'][mkey]
+        rep.touch(fs)
+        rep.touch(ft)
+        diff = []
+        for cell in sorted(ps):
+            a = set(map(c06.twin_norm, ps[cell]))
+            b = set(map(c06.twin_norm, pt_.get(cell, [])))
+            if a == b:
+                rep.ok('R10.2', '%s(%s)|%d..%d' % (mkey[0], mkey[1], cell[0], cell[1]),
+                       sample={'overload': '%s(%s)' % mkey, 'cell': '%d..%d' % cell, 'emitted': str(sorted(a))} if cell[0] == 256 else None)
+            else:
+                diff.append((cell, sorted(a), sorted(b)))
+        if diff:
+            rep.finding('R10.2', '%s(%s)' % mkey, ft.loc(),
+                        'string and stream MsgPack writers emit different bytes in %s(%s) for values %s'
+                        % (mkey[0], mkey[1], ', '.join('%d..%d' % c for c, _, _ in diff[:6])),
+                        {'string': str(diff[0][1]), 'stream': str(diff[0][2])}, func=ft.id, count=len(diff))
     try:
         from rules import twins_extra
     except ImportError:
